@@ -367,6 +367,18 @@ fn malformed_menu(server: bool, thorough: bool) -> Vec<(u32, u8, Vec<u8>)> {
         v.push((1, t, vec![]));
         v.push((1, t, vec![0xAF, 1, 2]));
     }
+    // media bodies shorter than the two-byte FLV tag header a session may look at: every one-byte body, and
+    // two-byte bodies for every codec nibble with each packet-type byte
+    for t in [8u8, 9] {
+        for b0 in 0..=255u8 {
+            v.push((1, t, vec![b0]));
+        }
+        for b0 in [0x07u8, 0x17, 0x27, 0x57, 0x1C, 0xAF, 0xA0, 0x2F, 0x00, 0xFF] {
+            for b1 in [0u8, 1, 2, 3, 0xFF] {
+                v.push((1, t, vec![b0, b1]));
+            }
+        }
+    }
     // metadata: every key the sessions map, with values of every kind (numbers of either sign and NaN, short and
     // empty strings, containers) - the mapping must return for all of them
     {
